@@ -196,6 +196,16 @@ def print_assumptions(work: str, module: str, theorems: list[str]) -> dict[str, 
     return res
 
 
+def coqchk(module: str, timeout: int = 1500) -> dict:
+    """Independent re-check of the compiled property file and everything it depends on (thorough tier).
+    Returns {"ok": bool, "axioms": text, "summary": text}."""
+    rc, out = sh(["coqchk", "-o", "-silent", "-Q", COQ, "HV", "HV." + module], cwd=COQ, timeout=timeout)
+    m = re.search(r"CONTEXT SUMMARY\s*=+\s*(.*)", out, re.S)
+    summary = " ".join((m.group(1) if m else out[-600:]).split())
+    ax = re.search(r"\* Axioms:(.*?)\* Constants", summary)
+    return {"ok": rc == 0, "axioms": (ax.group(1).strip() if ax else "?"), "summary": summary[:1500]}
+
+
 IDX = re.compile(r"=\s*(\[[^\]]*\])")
 
 
